@@ -69,6 +69,67 @@ def repo_test_histories(ctx):
     ctx.cov["repo_test_histories_disturbed_by_the_test"] = drift
 
 
+def raw_peer_histories(ctx):
+    """Histories of an acceptor whose peer does not follow the protocol: PDUs that keep arriving after this side has aborted or
+    rejected (read in Sta13 and ignored by AA-6) still cross the wire and are acted on by the state machine - they must be
+    notified like any other."""
+    import time
+    from pynetdicom import AE, evt
+    from pynetdicom.pdu import A_ABORT_RQ, A_RELEASE_RP
+    from pair_common import history
+    from raw_peer import RawPeer, assoc_rq_bytes
+    from recorder import Recorder
+    from rig import echo_rq_bytes
+    from trace import validate_traces
+
+    V = "1.2.840.10008.1.1"
+    ab = A_ABORT_RQ()
+    ab.source, ab.reason_diagnostic = 0, 0
+    tail = echo_rq_bytes() + echo_rq_bytes() + ab.encode()
+    out = []
+    rec = Recorder(seed=0, max_delay=0.0)
+    with rec:
+        for name in ("rejected-then-more", "aborted-then-more", "released-then-more"):
+            seen = []
+            ae = AE("ACCEPTOR")
+            ae.add_supported_context(V)
+            ae.acse_timeout = ae.dimse_timeout = ae.network_timeout = 3
+            srv = ae.start_server(("127.0.0.1", 0), block=False, evt_handlers=[(evt.EVT_CONN_OPEN, lambda e: seen.append(e.assoc))])
+            try:
+                peer = RawPeer(srv.socket.getsockname()[1], [(V, ["1.2.840.10008.1.2"])])
+                if name == "rejected-then-more":
+                    rq = bytearray(assoc_rq_bytes(peer.port, peer.proposals))
+                    rq[6:8] = b"\x00\x02"          # protocol version not supported: A-ASSOCIATE-RJ, Sta13
+                    peer.send_bytes(bytes(rq) + tail)
+                else:
+                    if peer.associate() != "assoc_ac":
+                        raise MachineryError("raw peer not accepted")
+                    first = A_RELEASE_RP().encode() if name == "aborted-then-more" else b"\x05\x00\x00\x00\x00\x04\x00\x00\x00\x00"
+                    peer.send_bytes(first + tail)      # unexpected A-RELEASE-RP: AA-8, Sta13 / A-RELEASE-RQ: answered, Sta13
+                t0 = time.time()
+                while time.time() - t0 < 5 and (not seen or seen[0].is_alive() or seen[0].dul.is_alive()):
+                    time.sleep(0.01)
+                peer.close()
+                uid = getattr(seen[0], "_verif_uid", None) if seen else None
+                out.append((name, uid, bool(seen) and not seen[0].dul.is_alive()))
+            finally:
+                srv.shutdown()
+    by = rec.by_assoc()
+    tr = []
+    for k, (name, uid, ended) in enumerate(out):
+        if uid is None or uid not in by:
+            raise MachineryError(f"raw peer history {name}: the acceptor association was not recorded")
+        tr.append({"id": k + 1, "h": history(by[uid]), "wired": True, "ended": ended, "peer_ended": True, "peer_released": False, "peer_recv": [], "peer_sent": []})
+    vs = validate_traces(ctx, "Trace_Notify", tr, name="notify_raw", timeout=900)
+    for t, (name, uid, ended) in zip(tr, out):
+        v = vs[t["id"]][0]
+        ctx.traces += 1
+        ctx.case(("raw-peer", name), nontrivial=True)
+        if v != "ok":
+            evs = [e["k"] + str(e["a"]) if e["k"] != "fsm" else f"Sta{e['a']}+Evt{e['b']}" for e in t["h"]]
+            ctx.violation({"clause": v, "cause": "none", "role": "acceptor", "raw": name}, f"{v}: acceptor whose raw peer goes on sending ({name}): history={evs[-40:]}", {"raw": name})
+
+
 def run(ctx):
     warnings.simplefilter("ignore")
     thorough = ctx.tier == "thorough"
@@ -83,6 +144,7 @@ def run(ctx):
     ctx.cov["notifications"] = sum(len(h["h"]) for h in hist)
     if hist:
         ctx.sample({"history_tail": [e["k"] if e["k"] != "fsm" else f"Sta{e['a']}+Evt{e['b']}" for e in hist[0]["h"]][-12:]})
+    raw_peer_histories(ctx)
     if thorough:
         repo_test_histories(ctx)
     ctx.assume("histories are those of the lifecycle scenarios of Scenario.tla on loopback with timeouts 0.8 s",
